@@ -10,6 +10,13 @@ Local Open Scope N_scope.
 Definition no_special (n t i : bytes) : option (option (bytes * bytes)) := None.
 
 (** the callbacks a value should produce, defined directly on the value *)
+Fixpoint zero_size (t : ty) : bool :=
+  match t with
+  | TTuple ts => forallb zero_size ts
+  | TStruct _ fs => forallb (fun f => zero_size (snd f)) fs
+  | _ => false
+  end.
+
 Definition raw_of (v : val) : N := match v with VRaw x => x | _ => 0 end.
 Definition is_char (t : ty) : bool := match t with TArith AChar => true | _ => false end.
 
@@ -20,6 +27,10 @@ Fixpoint callbacks_b (b : bool) (t : ty) (v : val) {struct v} : list cb :=
   | TEnum n a es, VRaw x => [CEnum n (lookup a es (hex_Z (raw_to_Z a x))) (atag a) (hex_Z (raw_to_Z a x))]
   | TSeq _ e, VSeq vs =>
       if b && is_char e then [CSeqChars (map raw_of vs)]
+      else if (32 <? N.of_nat (length vs)) && zero_size e then
+        (* more than 32 zero-size elements: visited once, with the count *)
+        [CSeqBegin (N.of_nat (length vs)) (tag e); CRepeatBegin (N.of_nat (length vs)) (tag e)] ++
+        (match vs with v1 :: _ => callbacks_b b e v1 | [] => [] end) ++ [CRepeatEnd (N.of_nat (length vs)) (tag e); CSeqEnd]
       else [CSeqBegin (N.of_nat (length vs)) (tag e)] ++ concat (map (callbacks_b b e) vs) ++ [CSeqEnd]
   | TTuple ts, VTup vs =>
       [CTupleBegin (concat (map tag ts))] ++
@@ -54,6 +65,26 @@ Fixpoint plain (sp : bytes -> bytes -> bytes -> option (option (bytes * bytes)))
   | _ => True
   end.
 
+(** an empty struct is written {Name}: the same text as a reference to a struct defined elsewhere in the complete tag. It denotes the empty
+    struct when the complete tag [full] holds no definition of that name (what resolve_recursive_tag finds) *)
+Fixpoint empties (full : bytes) (t : ty) : Prop :=
+  match t with
+  | TSeq _ e => empties full e
+  | TOpt e => empties full e
+  | TTuple ts => (fix all (l : list ty) : Prop := match l with [] => True | x :: r => empties full x /\ all r end) ts
+  | TVariant ts => (fix all (l : list ty) : Prop := match l with [] => True | x :: r => empties full x /\ all r end) ts
+  | TStruct n fs => (fs = [] -> resolve_recursive_tag full (123 :: n) = []) /\
+                    (fix all (l : list (bytes * ty)) : Prop := match l with [] => True | x :: r => empties full (snd x) /\ all r end) fs
+  | _ => True
+  end.
+
+Lemma empties_member full ts t :
+  (fix all (l : list ty) : Prop := match l with [] => True | x :: r => empties full x /\ all r end) ts -> In t ts -> empties full t.
+Proof. induction ts as [|x ts IH]; intros He Ht; [contradiction|]. destruct He as [E1 E2]. destruct Ht as [->|Ht]; [exact E1|now apply IH]. Qed.
+Lemma empties_field full fs fd :
+  (fix all (l : list (bytes * ty)) : Prop := match l with [] => True | x :: r => empties full (snd x) /\ all r end) fs -> In fd fs -> empties full (snd fd).
+Proof. induction fs as [|x fs IH]; intros He Ht; [contradiction|]. destruct He as [E1 E2]. destruct Ht as [->|Ht]; [exact E1|now apply IH]. Qed.
+
 (** the universe of the theorem; [inv] = may appear as a variant alternative (where monostate is allowed) *)
 Fixpoint simple (inv : bool) (t : ty) : bool :=
   match t with
@@ -64,7 +95,7 @@ Fixpoint simple (inv : bool) (t : ty) : bool :=
   | TTuple ts => forallb (simple false) ts
   | TVariant ts => forallb (simple true) ts && (N.of_nat (length ts) <? 256)
   | TUnit => inv
-  | TStruct _ fs => negb (match fs with [] => true | _ => false end) && forallb (fun f => simple false (snd f)) fs
+  | TStruct _ fs => forallb (fun f => simple false (snd f)) fs
   end.
 
 Fixpoint short (v : val) : bool :=
@@ -263,6 +294,133 @@ Proof. destruct t; (now left) || (right; discriminate). Qed.
 Lemma simple_weaken t : simple true t = true -> t <> TUnit -> simple false t = true.
 Proof. destruct t; cbn; auto; congruence. Qed.
 
+(** * Singular.hpp: a tag is singular iff its values occupy zero bytes *)
+
+Lemma list_eq_nil_dec {A} (l : list A) : {l = []} + {l <> []}.
+Proof. destruct l; [now left|right; discriminate]. Qed.
+
+Lemma find_pos_notin l c : ~ In c l -> find_pos l c = length l.
+Proof.
+  induction l as [|x l IH]; intros H; [reflexivity|]. cbn [find_pos length].
+  destruct (N.eqb_spec x c) as [->|Hne]; [exfalso; apply H; now left|]. f_equal. apply IH. intros Q. apply H. now right.
+Qed.
+
+Lemma simple_weaken_rev t : simple false t = true -> simple true t = true.
+Proof. destruct t; cbn; auto; discriminate. Qed.
+
+Section Sing.
+Variable full : bytes.
+
+Fixpoint stl (f : nat) (n : nat) (t : bytes) : option bool :=
+  match n with O => Some true | S n' =>
+    let (e, r) := tag_pop t in
+    match e with [] => Some true | _ =>
+      match singular f full e with Some true => stl f n' r | other => other end end end.
+Fixpoint sfl (f : nat) (n : nat) (t : bytes) : option bool :=
+  match n with O => Some true | S n' =>
+    match t with [] => Some true | _ =>
+      let (_, t1) := tag_pop_label t in
+      let (ft, t2) := tag_pop t1 in
+      match singular f full ft with Some true => sfl f n' t2 | other => other end end end.
+
+Lemma singular_tuple_unfold f inner : singular (S f) full (40 :: inner ++ [41]) = stl f (S (length inner)) inner.
+Proof.
+  cbn [singular]. unfold drop, drop_last. cbn [skipn].
+  replace (removelast (inner ++ [41])) with inner by (symmetry; apply removelast_last).
+  cbn [stl]. destruct (tag_pop inner) as [e r]. destruct e as [|c e]; [reflexivity|].
+  destruct (singular f full (c :: e)) as [[|]|]; try reflexivity.
+  generalize (length inner) as n. intros n. revert r. induction n as [|n IH]; intros r; [reflexivity|].
+  cbn -[tag_pop singular]. destruct (tag_pop r) as [e' r']. destruct e' as [|c' e']; [reflexivity|].
+  destruct (singular f full (c' :: e')) as [[|]|]; try reflexivity. apply IH.
+Qed.
+
+Lemma singular_members f : forall ts n, (length (concat (map tag ts)) < n)%nat ->
+  Forall (fun t => ty_ok t = true /\ singular f full (tag t) = Some (zero_size t)) ts ->
+  stl f n (concat (map tag ts))
+  = Some (forallb zero_size ts).
+Proof.
+  induction ts as [|t ts IH]; intros n Hn H.
+  - destruct n; [cbn in Hn; lia|]. reflexivity.
+  - inversion H as [|? ? [Hok Hs] Hr]; subst. destruct n; [cbn in Hn; lia|].
+    cbn [map concat stl]. rewrite (tag_pop_tag t _ Hok).
+    pose proof (tag_nonempty t) as Hne. destruct (tag t) eqn:Et; [congruence|]. rewrite <- Et in *. rewrite Hs.
+    cbn [forallb]. destruct (zero_size t); cbn [andb]; [|reflexivity].
+    apply IH; [|exact Hr]. cbn [map concat] in Hn. rewrite app_length in Hn. rewrite Et in Hn. cbn [length] in Hn. lia.
+Qed.
+
+Lemma singular_fields f : forall fs n, (length (fields_tag fs) < n)%nat ->
+  Forall (fun fd => name_ok (fst fd) = true /\ ty_ok (snd fd) = true /\ singular f full (tag (snd fd)) = Some (zero_size (snd fd))) fs ->
+  sfl f n (fields_tag fs)
+  = Some (forallb (fun fd => zero_size (snd fd)) fs).
+Proof.
+  induction fs as [|fd fs IH]; intros n Hn H.
+  - destruct n; [cbn in Hn; lia|]. reflexivity.
+  - inversion H as [|? ? (Hl & Hok & Hs) Hr]; subst. destruct n; [cbn in Hn; lia|].
+    unfold fields_tag in *. cbn [map concat] in *. rewrite <- !app_assoc in *. cbn [app sfl] in *.
+    destruct (name_ok_transp _ Hl) as (_ & _ & _ & _ & _ & H39).
+    rewrite (tag_pop_label_spec (fst fd) _ H39). rewrite (tag_pop_tag (snd fd) _ Hok). rewrite Hs.
+    cbn [forallb]. destruct (zero_size (snd fd)); cbn [andb]; [|reflexivity].
+    apply IH; [|exact Hr]. repeat (rewrite app_length in Hn || cbn [length] in Hn). lia.
+Qed.
+
+Lemma singular_struct_unfold f name fs : fs <> [] -> ~ In 96 name -> singular (S f) full (123 :: name ++ fields_tag fs ++ [125]) =
+  sfl f (S (length (fields_tag fs))) (fields_tag fs).
+Proof.
+  intros Hne H96. cbn [singular]. unfold drop_last.
+  replace (123 :: name ++ fields_tag fs ++ [125]) with ((123 :: name ++ fields_tag fs) ++ [125]) by (cbn [app]; now rewrite <- app_assoc).
+  rewrite removelast_last. unfold remove_prefix_before.
+  destruct fs as [|f0 fs0]; [congruence|].
+  assert (Hft : fields_tag (f0 :: fs0) = 96 :: (fst f0 ++ [39] ++ tag (snd f0)) ++ fields_tag fs0) by (unfold fields_tag; cbn [map concat app]; reflexivity).
+  rewrite Hft. rewrite (find_pos_struct name _ H96).
+  replace (123 :: name ++ 96 :: (fst f0 ++ [39] ++ tag (snd f0)) ++ fields_tag fs0) with ((123 :: name) ++ 96 :: (fst f0 ++ [39] ++ tag (snd f0)) ++ fields_tag fs0) by reflexivity.
+  change (S (length name)) with (length (123 :: name)). rewrite firstn_app_exact, skipn_app_exact.
+  set (T := 96 :: (fst f0 ++ [39] ++ tag (snd f0)) ++ fields_tag fs0).
+  assert (G : forall n t, (fix loop (n : nat) (t : bytes) : option bool :=
+     match n with O => Some true | S n' =>
+       match t with [] => Some true | _ =>
+         let (_, t1) := tag_pop_label t in
+         let (ft, t2) := tag_pop t1 in
+         match singular f full ft with Some true => loop n' t2 | other => other end end end) n t = sfl f n t).
+  { induction n as [|n IH]; intros t; [reflexivity|]. cbn -[tag_pop tag_pop_label singular]. destruct t as [|c t]; [reflexivity|].
+    destruct (tag_pop_label (c :: t)) as [lb t1]. destruct (tag_pop t1) as [ft t2]. destruct (singular f full ft) as [[|]|]; try reflexivity. apply IH. }
+  subst T. cbn [sfl].
+  match goal with |- context [tag_pop_label ?x] => destruct (tag_pop_label x) as [lb t1] end.
+  destruct (tag_pop t1) as [ft t2]. destruct (singular f full ft) as [[|]|]; try reflexivity. apply G.
+Qed.
+
+Theorem singular_agrees : forall t fuel, simple true t = true -> ty_ok t = true -> empties full t -> (depth t <= fuel)%nat ->
+  singular fuel full (tag t) = Some (zero_size t).
+Proof.
+  induction t using ty_ind'; intros fuel Hs Hok He Hd; (destruct fuel as [|f]; [cbn [depth] in Hd; lia|]).
+  - destruct a; reflexivity.
+  - reflexivity.
+  - reflexivity.
+  - (* tuple *)
+    cbn [tag zero_size simple ty_ok depth] in *. rewrite singular_tuple_unfold.
+    apply singular_members; [lia|].
+    rewrite Forall_forall in *. rewrite forallb_forall in Hs, Hok. intros t Ht. split; [apply Hok; exact Ht|].
+    apply (H t Ht f); [apply simple_weaken_rev; apply Hs; exact Ht|apply Hok; exact Ht|apply (empties_member full ts t He Ht)|pose proof (max_fold_ge ts t Ht); lia].
+  - reflexivity.
+  - reflexivity.
+  - reflexivity.
+  - (* struct *)
+    cbn [tag zero_size simple ty_ok depth empties] in *. apply andb_true_iff in Hok. destruct Hok as [Hn Hfs]. destruct He as [He0 He].
+    destruct (name_ok_transp _ Hn) as (_ & _ & _ & _ & H96 & _).
+    destruct (list_eq_nil_dec fs) as [Efs|Efs].
+    + (* empty struct: {Name} *)
+      subst fs. cbn [map concat app forallb]. cbn [singular]. unfold drop_last.
+      replace (123 :: n ++ [125]) with ((123 :: n) ++ [125]) by reflexivity. rewrite removelast_last.
+      unfold remove_prefix_before. rewrite (find_pos_notin (123 :: n) 96) by (intros [Q|Q]; [discriminate|contradiction]).
+      rewrite firstn_all, skipn_all. rewrite (He0 eq_refl). reflexivity.
+    + fold (fields_tag fs). rewrite singular_struct_unfold; [|exact Efs|exact H96].
+      apply singular_fields; [lia|].
+      rewrite Forall_forall in *. rewrite forallb_forall in Hs, Hfs. intros fd Hfd. specialize (Hfs fd Hfd). apply andb_true_iff in Hfs. destruct Hfs as [L1 T1].
+      split; [exact L1|split; [exact T1|]].
+      apply (H fd Hfd f); [apply simple_weaken_rev; apply Hs; exact Hfd|exact T1|apply (empties_field full fs fd He Hfd)|pose proof (max_fold_ge_f fs fd Hfd); lia].
+Qed.
+End Sing.
+
+
 Lemma is_c_tag t : (match tag t with [99] => true | _ => false end) = is_char t.
 Proof. destruct t as [a| | | | | | |]; try reflexivity. destruct a; reflexivity. Qed.
 
@@ -273,9 +431,22 @@ Proof.
   rewrite N.mod_small by (cbn in H; lia). reflexivity.
 Qed.
 
-Theorem visit_agrees_gen full b sp : forall v t inv, wt t v = true -> simple inv t = true -> t <> TUnit -> ty_ok t = true -> short v = true -> plain sp t -> agrees full b sp t v.
+Lemma zero_enc : forall v t, zero_size t = true -> wt t v = true -> spec_enc t v = [].
 Proof.
-  induction v using val_ind'; intros t inv Hwt Hs Hnu Hok Hsh Hpl; destruct t; try discriminate; try congruence; intros fuel rest Hfuel;
+  induction v using val_ind'; intros t Hz Hwt; destruct t; try discriminate.
+  - rewrite wt_tuple in Hwt. rewrite spec_tuple. cbn [zero_size] in Hz.
+    revert ts Hz Hwt. induction H as [|v vs Hv _ IH]; intros [|t ts] Hz Hwt; try reflexivity; try discriminate.
+    cbn [forallb wt_members spec_members] in *. apply andb_true_iff in Hz, Hwt. destruct Hz as [Z1 Z2], Hwt as [W1 W2].
+    rewrite (Hv t Z1 W1), (IH ts Z2 W2). reflexivity.
+  - rewrite wt_struct in Hwt. rewrite spec_struct. cbn [zero_size] in Hz.
+    revert fields Hz Hwt. induction H as [|v vs Hv _ IH]; intros [|fd fs] Hz Hwt; try reflexivity; try discriminate.
+    cbn [forallb wt_members spec_members map] in *. apply andb_true_iff in Hz, Hwt. destruct Hz as [Z1 Z2], Hwt as [W1 W2].
+    rewrite (Hv (snd fd) Z1 W1), (IH fs Z2 W2). reflexivity.
+Qed.
+
+Theorem visit_agrees_gen full b sp : forall v t inv, wt t v = true -> simple inv t = true -> t <> TUnit -> ty_ok t = true -> plain sp t -> empties full t -> agrees full b sp t v.
+Proof.
+  induction v using val_ind'; intros t inv Hwt Hs Hnu Hok Hpl Hem; destruct t; try discriminate; try congruence; intros fuel rest Hfuel;
     (destruct fuel as [|f]; [cbn [depth] in Hfuel; lia|]).
   - (* arithmetic leaf *)
     cbn [wt] in Hwt. apply N.ltb_lt in Hwt. cbn [tag spec_enc callbacks].
@@ -287,68 +458,92 @@ Proof.
   - (* sequence *)
     cbn [wt] in Hwt. apply andb_true_iff in Hwt. destruct Hwt as [Hwt _]. apply andb_true_iff in Hwt. destruct Hwt as [Hall Hlen].
     rewrite forallb_forall in Hall. apply N.ltb_lt in Hlen.
-    cbn [short] in Hsh. apply andb_true_iff in Hsh. destruct Hsh as [H32 Hshs]. apply N.leb_le in H32. rewrite forallb_forall in Hshs.
     cbn [simple ty_ok depth] in *.
     cbn [tag spec_enc visit]. rewrite <- app_assoc, take_n_le_enc, le_dec_enc by (cbn; lia).
     pose proof (tag_pop_tag t [] Hok) as Hp. rewrite app_nil_r in Hp. rewrite Hp.
     rewrite is_c_tag. cbn [callbacks_b].
+    assert (Hnt : t <> TUnit) by (intros ->; discriminate Hs).
     destruct (b && is_char t) eqn:Ebc.
     + (* the visitor takes the whole string *)
       apply andb_true_iff in Ebc. destruct Ebc as [_ Hc]. destruct t as [a| | | | | | |]; try discriminate Hc. destruct a; try discriminate Hc.
       rewrite (chars_enc vs Hall).
       replace (N.of_nat (length vs)) with (lenN (map raw_of vs)) by (unfold lenN; now rewrite map_length).
       rewrite takeN_exact. reflexivity.
-    + destruct (N.ltb_spec 32 (N.of_nat (length vs))); [lia|].
-      rewrite seq_loopN_eq, Nat2N.id, seq_loop_agrees.
-      * cbn [prepend app]. reflexivity.
-      * assert (Hnt : t <> TUnit) by (intros ->; discriminate Hs).
-        rewrite Forall_forall in *. intros v Hv r. apply (H v Hv t false (Hall v Hv) Hs Hnt Hok (Hshs v Hv) Hpl). lia.
+    + assert (Hloop : seq_loopN (visit b sp f full) (tag t) (N.of_nat (length vs)) (concat (map (spec_enc t) vs) ++ rest) []
+                      = VOk ([] ++ concat (map (callbacks_b b t) vs) ++ [CSeqEnd], rest)).
+      { rewrite seq_loopN_eq, Nat2N.id. apply seq_loop_agrees.
+        rewrite Forall_forall in *. intros v Hv r. apply (H v Hv t false (Hall v Hv) Hs Hnt Hok Hpl Hem). lia. }
+      destruct (N.ltb_spec 32 (N.of_nat (length vs))) as [H32|H32]; cbn [andb].
+      * (* more than 32 elements: the singular check decides *)
+        rewrite (singular_agrees full t f (simple_weaken_rev t Hs) Hok Hem ltac:(lia)).
+        destruct (zero_size t) eqn:Ez.
+        -- destruct vs as [|v1 vs']; [cbn in H32; lia|].
+           assert (Hz : concat (map (spec_enc t) (v1 :: vs')) = []).
+           { assert (G : forall l, (forall x, In x l -> wt t x = true) -> concat (map (spec_enc t) l) = []).
+             { induction l as [|x l IHl]; intros Hl; [reflexivity|]. cbn [map concat]. rewrite (zero_enc x t Ez (Hl x (or_introl eq_refl))). apply IHl. intros y Hy. apply Hl. now right. }
+             apply G. exact Hall. }
+           rewrite Hz. cbn [app].
+           rewrite Forall_forall in H.
+           pose proof (H v1 (or_introl eq_refl) t false (Hall v1 (or_introl eq_refl)) Hs Hnt Hok Hpl Hem f rest ltac:(lia)) as Hv1.
+           rewrite (zero_enc v1 t Ez (Hall v1 (or_introl eq_refl))) in Hv1. cbn [app] in Hv1. rewrite Hv1.
+           cbn [prepend app]. reflexivity.
+        -- rewrite Hloop. cbn [prepend app]. reflexivity.
+      * rewrite Hloop. cbn [prepend app]. reflexivity.
   - (* tuple *)
-    rewrite wt_tuple in Hwt. cbn [short simple ty_ok depth] in *. rewrite spec_tuple.
+    rewrite wt_tuple in Hwt. cbn [simple ty_ok depth] in *. rewrite spec_tuple.
     cbn [tag callbacks_b visit]. unfold drop, drop_last. cbn [skipn]. rewrite removelast_app_one.
     rewrite (tuple_loop_agrees full b sp f vs ts rest []); [cbn [prepend app]; reflexivity| |pose proof (tags_length_le ts); lia].
-    clear rest Hnu. cbn [plain] in Hpl. revert ts Hwt Hs Hok Hfuel Hpl. induction H as [|v vs Hv _ IH]; intros ts Hwt Hs Hok Hfuel Hpl; destruct ts as [|t ts]; try discriminate; [constructor|]. destruct Hpl as [P1 P2].
+    clear rest Hnu. cbn [plain empties] in Hpl, Hem. revert ts Hwt Hs Hok Hfuel Hpl Hem. induction H as [|v vs Hv _ IH]; intros ts Hwt Hs Hok Hfuel Hpl Hem; destruct ts as [|t ts]; try discriminate; [constructor|]. destruct Hpl as [P1 P2]. destruct Hem as [M1 M2].
     cbn [wt_members forallb fold_right] in *. apply andb_true_iff in Hwt. destruct Hwt as [W1 W2]. apply andb_true_iff in Hs. destruct Hs as [S1 S2].
-    apply andb_true_iff in Hok. destruct Hok as [O1 O2]. apply andb_true_iff in Hsh. destruct Hsh as [Sh1 Sh2].
+    apply andb_true_iff in Hok. destruct Hok as [O1 O2].
     constructor; [split; [exact O1|]|apply IH; auto; lia].
     assert (Hnt : t <> TUnit) by (intros ->; discriminate S1).
-    intros r. apply (Hv t false W1 S1 Hnt O1 Sh1 P1). lia.
+    intros r. apply (Hv t false W1 S1 Hnt O1 P1 M1). lia.
   - (* struct *)
-    rewrite wt_struct in Hwt. cbn [short simple ty_ok depth] in *. rewrite spec_struct.
-    apply andb_true_iff in Hs. destruct Hs as [Hne Hs]. apply andb_true_iff in Hok. destruct Hok as [Hn Hfs].
+    rewrite wt_struct in Hwt. cbn [simple ty_ok depth] in *. rewrite spec_struct.
+    apply andb_true_iff in Hok. destruct Hok as [Hn Hfs].
     destruct (name_ok_transp _ Hn) as (_ & _ & _ & _ & H96 & _).
-    destruct fields as [|f0 fs0] eqn:Ef; [discriminate|]. rewrite <- Ef in *.
-    assert (Hft : fields_tag fields = 96 :: (fst f0 ++ [39] ++ tag (snd f0)) ++ fields_tag fs0) by (rewrite Ef; unfold fields_tag; cbn [map concat app]; reflexivity).
-    cbn [tag callbacks_b visit]. fold (fields_tag fields). unfold drop_last.
-    replace (123 :: name ++ fields_tag fields ++ [125]) with ((123 :: name ++ fields_tag fields) ++ [125]) by (cbn [app]; now rewrite <- app_assoc).
-    rewrite removelast_app_one. unfold remove_prefix_before. rewrite Hft. rewrite (find_pos_struct name _ H96).
-    replace (123 :: name ++ 96 :: (fst f0 ++ [39] ++ tag (snd f0)) ++ fields_tag fs0) with ((123 :: name) ++ 96 :: (fst f0 ++ [39] ++ tag (snd f0)) ++ fields_tag fs0) by reflexivity.
-    change (S (length name)) with (length (123 :: name)). rewrite firstn_app_exact, skipn_app_exact. rewrite <- Hft. unfold drop. cbn [skipn].
-    cbn [plain] in Hpl. destruct Hpl as [Hsp Hpl]. fold (fields_tag fields) in Hsp. rewrite Hsp.
-    rewrite (struct_loop_agrees full b sp f vs fields rest []); [cbn [prepend app]; reflexivity| |lia].
-    clear Hft Ef Hne f0 fs0 rest Hnu Hsp. revert Hwt Hs Hfs Hfuel Hpl. generalize fields as fs. induction H as [|v vs Hv _ IH]; intros fs Hwt Hs Hfs Hfuel Hpl; destruct fs as [|fd fs]; try discriminate; [constructor|]. destruct Hpl as [P1 P2].
-    cbn [wt_members forallb fold_right map] in *. apply andb_true_iff in Hwt. destruct Hwt as [W1 W2]. apply andb_true_iff in Hs. destruct Hs as [S1 S2].
-    apply andb_true_iff in Hfs. destruct Hfs as [O1 O2]. apply andb_true_iff in O1. destruct O1 as [L1 T1]. apply andb_true_iff in Hsh. destruct Hsh as [Sh1 Sh2].
-    constructor; [split; [exact L1|split; [exact T1|]]|apply IH; auto; lia].
-    assert (Hnt : snd fd <> TUnit) by (intros Q; rewrite Q in S1; discriminate S1).
-    intros r. apply (Hv (snd fd) false W1 S1 Hnt T1 Sh1 P1). lia.
+    cbn [plain empties] in Hpl, Hem. destruct Hpl as [Hsp Hpl]. destruct Hem as [Hem0 Hem]. fold (fields_tag fields) in Hsp.
+    destruct (list_eq_nil_dec fields) as [Ef|Ef].
+    + (* empty struct: {Name}, nothing to read *)
+      subst fields. destruct vs as [|v0 vs0]; [|discriminate Hwt].
+      cbn [tag callbacks_b map concat app spec_members visit]. unfold drop_last.
+      replace (123 :: name ++ [125]) with ((123 :: name) ++ [125]) by reflexivity. rewrite removelast_app_one.
+      unfold remove_prefix_before. rewrite (find_pos_notin (123 :: name) 96) by (intros [Q|Q]; [discriminate|contradiction]).
+      rewrite firstn_all, skipn_all. rewrite (Hem0 eq_refl). unfold drop. cbn [skipn].
+      change (fields_tag []) with (@nil N) in Hsp. rewrite Hsp. reflexivity.
+    + assert (Hex : exists f0 fs0, fields = f0 :: fs0) by (destruct fields; [congruence|eauto]). destruct Hex as (f0 & fs0 & Ef0).
+      assert (Hft : fields_tag fields = 96 :: (fst f0 ++ [39] ++ tag (snd f0)) ++ fields_tag fs0) by (rewrite Ef0; unfold fields_tag; cbn [map concat app]; reflexivity).
+      cbn [tag callbacks_b visit]. fold (fields_tag fields). unfold drop_last.
+      replace (123 :: name ++ fields_tag fields ++ [125]) with ((123 :: name ++ fields_tag fields) ++ [125]) by (cbn [app]; now rewrite <- app_assoc).
+      rewrite removelast_app_one. unfold remove_prefix_before. rewrite Hft. rewrite (find_pos_struct name _ H96).
+      replace (123 :: name ++ 96 :: (fst f0 ++ [39] ++ tag (snd f0)) ++ fields_tag fs0) with ((123 :: name) ++ 96 :: (fst f0 ++ [39] ++ tag (snd f0)) ++ fields_tag fs0) by reflexivity.
+      change (S (length name)) with (length (123 :: name)). rewrite firstn_app_exact, skipn_app_exact. rewrite <- Hft. unfold drop. cbn [skipn].
+      rewrite Hsp.
+      rewrite (struct_loop_agrees full b sp f vs fields rest []); [cbn [prepend app]; reflexivity| |lia].
+      clear Hft Ef Ef0 f0 fs0 rest Hnu Hsp Hem0. revert Hwt Hs Hfs Hfuel Hpl Hem. generalize fields as fs. induction H as [|v vs Hv _ IH]; intros fs Hwt Hs Hfs Hfuel Hpl Hem; destruct fs as [|fd fs]; try discriminate; [constructor|]. destruct Hpl as [P1 P2]. destruct Hem as [M1 M2].
+      cbn [wt_members forallb fold_right map] in *. apply andb_true_iff in Hwt. destruct Hwt as [W1 W2]. apply andb_true_iff in Hs. destruct Hs as [S1 S2].
+      apply andb_true_iff in Hfs. destruct Hfs as [O1 O2]. apply andb_true_iff in O1. destruct O1 as [L1 T1].
+      constructor; [split; [exact L1|split; [exact T1|]]|apply IH; auto; lia].
+      assert (Hnt : snd fd <> TUnit) by (intros Q; rewrite Q in S1; discriminate S1).
+      intros r. apply (Hv (snd fd) false W1 S1 Hnt T1 P1 M1). lia.
   - (* null pointer / empty optional *)
     cbn [tag spec_enc callbacks_b visit]. unfold drop, drop_last. cbn [skipn app].
     replace (48 :: tag t ++ [62]) with ((48 :: tag t) ++ [62]) by reflexivity. rewrite removelast_app_one.
     change (take_n 1 (0 :: rest)) with (take_n 1 (le_enc 1 0 ++ rest)). rewrite take_n_le_enc, le_dec_enc by (cbn; lia). cbn [N.iter].
     rewrite (tfs_pop_plain 48 (tag t)) by (intros Q; discriminate Q). cbn [is_null_tag N.eqb Pos.eqb prepend app]. reflexivity.
   - (* non-null *)
-    cbn [wt short simple ty_ok depth] in *.
+    cbn [wt simple ty_ok depth] in *.
     cbn [tag spec_enc callbacks_b visit]. unfold drop, drop_last. cbn [skipn app].
     replace (48 :: tag t ++ [62]) with ((48 :: tag t) ++ [62]) by reflexivity. rewrite removelast_app_one.
     change (take_n 1 (1 :: spec_enc t v ++ rest)) with (take_n 1 (le_enc 1 1 ++ spec_enc t v ++ rest)). rewrite take_n_le_enc, le_dec_enc by (cbn; lia). cbn [N.iter Pos.iter].
     rewrite (tfs_pop_plain 48 (tag t)) by (intros Q; discriminate Q). cbn [snd].
     pose proof (tag_pop_tag t [] Hok) as Hp. rewrite app_nil_r in Hp. rewrite Hp.
     rewrite (not_null_tag t Hs).
-    rewrite (IHv t false Hwt Hs ltac:(destruct t; try discriminate; congruence) Hok Hsh Hpl f rest ltac:(lia)).
+    rewrite (IHv t false Hwt Hs ltac:(destruct t; try discriminate; congruence) Hok Hpl Hem f rest ltac:(lia)).
     cbn [prepend app]. rewrite <- ?app_assoc. reflexivity.
   - (* variant alternative *)
-    cbn [wt short simple ty_ok depth] in *. apply andb_true_iff in Hs. destruct Hs as [Hs H256]. apply N.ltb_lt in H256.
+    cbn [wt simple ty_ok depth] in *. apply andb_true_iff in Hs. destruct Hs as [Hs H256]. apply N.ltb_lt in H256.
     destruct (nth_error ts i) as [ti|] eqn:Ei; [|discriminate].
     assert (Hi : (i < length ts)%nat) by (apply nth_error_Some; congruence).
     cbn [tag spec_enc callbacks_b visit]. rewrite Ei. unfold drop, drop_last. cbn [skipn].
@@ -367,11 +562,11 @@ Proof.
       rewrite (not_null_tag ti Hsf).
       assert (Hpti : plain sp ti).
       { clear - Hpl Hin. cbn [plain] in Hpl. induction ts as [|x ts IHts]; [contradiction|]. destruct Hpl as [P1 P2]. destruct Hin as [->|Hin]; [exact P1|apply IHts; assumption]. }
-      rewrite (IHv ti false Hwt Hsf Hnt (Hok ti Hin) Hsh Hpti f rest).
+      rewrite (IHv ti false Hwt Hsf Hnt (Hok ti Hin) Hpti (empties_member full ts ti Hem Hin) f rest).
       * destruct ti; try congruence; cbn [prepend app]; rewrite <- ?app_assoc; reflexivity.
       * pose proof (max_fold_ge ts ti Hin). lia.
   - (* valueless *)
-    cbn [wt short simple ty_ok depth] in *. apply andb_true_iff in Hs. destruct Hs as [Hs H256]. apply N.ltb_lt in H256.
+    cbn [wt simple ty_ok depth] in *. apply andb_true_iff in Hs. destruct Hs as [Hs H256]. apply N.ltb_lt in H256.
     cbn [tag spec_enc callbacks_b visit]. unfold drop, drop_last. cbn [skipn].
     replace (concat (map tag ts) ++ [48; 62]) with ((concat (map tag ts) ++ [48]) ++ [62]) by (now rewrite <- app_assoc).
     rewrite removelast_app_one. rewrite N.mod_small by lia.
@@ -391,14 +586,14 @@ Proof.
   - split; [reflexivity|]. induction H as [|x l Hx _ IH]; [exact I|split; assumption].
 Qed.
 
-Theorem visit_agrees_partial full : forall v t inv, wt t v = true -> simple inv t = true -> t <> TUnit -> ty_ok t = true -> short v = true -> agrees full false no_special t v.
+Theorem visit_agrees_partial full : forall v t inv, wt t v = true -> simple inv t = true -> t <> TUnit -> ty_ok t = true -> empties full t -> agrees full false no_special t v.
 Proof.
-  intros v t inv Hwt Hs Hnu Hok Hsh. apply (visit_agrees_gen full false no_special v t inv); auto. apply plain_no_special.
+  intros v t inv Hwt Hs Hnu Hok Hem. apply (visit_agrees_gen full false no_special v t inv); auto. apply plain_no_special.
 Qed.
 
-Corollary visit_agrees_2048 v t rest : wt t v = true -> simple false t = true -> ty_ok t = true -> short v = true -> (depth t <= 2048)%nat ->
+Corollary visit_agrees_2048 v t rest : wt t v = true -> simple false t = true -> ty_ok t = true -> empties (tag t) t -> (depth t <= 2048)%nat ->
   visit false no_special 2048 (tag t) (tag t) (enc t v ++ rest) = VOk (callbacks t v, rest).
 Proof.
-  intros Hwt Hs Hok Hsh Hd. rewrite enc_is_documented by exact Hwt.
+  intros Hwt Hs Hok Hem Hd. rewrite enc_is_documented by exact Hwt.
   apply (visit_agrees_partial (tag t) v t false Hwt Hs); auto. intros ->. discriminate Hs.
 Qed.
